@@ -11,6 +11,7 @@ import ALV.Lemmas.C11Order2
 import ALV.Lemmas.C11Lev
 import ALV.Lemmas.C11Poles
 import ALV.Lemmas.C11Converse
+import ALV.Lemmas.C11Hist
 import ALV.Common.Audit
 
 set_option linter.unusedSectionVars false
@@ -302,6 +303,185 @@ theorem d3_order1 {L : Type} [Field L] [LinearOrder L] [IsStrictOrderedRing L]
   · rw [if_neg hz]
     simp [ploop]
 
+/-! ### 7. histories: filters are MUTABLE objects (`ALV/Model/C11Hist.lean`)
+
+`step h op` = one operation of the caller on the heap of Poly / ZFilter objects, `run` = a whole
+history.  `parcor` / `parcor_stable` at any point of a history are the single-call functions of the
+sections above applied to the CURRENT contents of the two Poly objects the filter is bound to. -/
+section Hist
+open ALV.C11.Hist
+variable {L : Type} [Field L] [LinearOrder L] [IsStrictOrderedRing L]
+
+/-- **C11.7a** invariant, every operation (also one that raises `ParCorError` or names a filter whose
+construction raised): live filters stay bound to existing Poly objects. -/
+theorem hist_wf_step (h : Heap L) (op : Op L) (hw : h.wf) : (step h op).1.wf := step_wf h op hw
+
+/-- … hence after every history from the empty heap -/
+theorem hist_wf (ops : List (Op L)) : (run (Heap.empty : Heap L) ops).1.wf :=
+  run_wf ops _ wf_empty
+
+/-- **C11.7b** frame, Poly objects: whatever the operation — constructor, `levinson_durbin` (also when it
+raises), rebinding, a query (also `ValueError` / `ParCorError`) — an existing Poly object keeps its
+coefficients unless the operation is an in-place edit through a live filter bound to that very object. -/
+theorem hist_cell_frame (h : Heap L) (op : Op L) (c : Nat) (hc : c < h.cells.length) :
+    (step h op).1.cell c = h.cell c ∨
+      ∃ t p i v f, op = .set t p i v ∧ h.filt t = some f ∧ f.cell p = c :=
+  step_cell_frame h op c hc
+
+/-- **C11.7c** frame, filter objects: bindings and the `error` attribute of filter `t` change only by
+`f_t.numpoly = …` / `f_t.denpoly = …`. -/
+theorem hist_filt_frame (h : Heap L) (op : Op L) (t : Nat) (ht : t < h.filts.length) :
+    (step h op).1.filt t = h.filt t ∨
+      (∃ p cs, op = .setPoly t p cs) ∨ (∃ p s q, op = .share t p s q) :=
+  step_filt_frame h op t ht
+
+/-- **C11.7d** `f.numpoly[i] = v` sets the coefficient of `z^-i` of the object `f` is bound to and no
+other coefficient (absent powers read as zero). -/
+theorem hist_set_coeff (h : Heap L) (hw : h.wf) (t : Nat) (p : Part) (i : Nat) (v : L) (f : Filt L)
+    (hf : h.filt t = some f) (j : Nat) :
+    ((step h (.set t p i v)).1.cell (f.cell p)).getD j 0
+      = if j = i then v else (h.cell (f.cell p)).getD j 0 := by
+  rw [step_set h t p i v f hf, cell_set_self h _ _ (cell_lt_of_wf h hw t f hf p)]
+  exact getD_setAt _ i j v
+
+/-- **C11.7e** a query in the middle of a history = the same query TAKEN ALONE on a fresh filter built
+from pristine copies of the current coefficient lists: nothing else of the heap is read (not the `error`
+attribute, not the other objects, not which Poly objects are shared). -/
+theorem hist_query_alone (h : Heap L) (t : Nat) (n d : List L) (hc : h.contents t = some (n, d)) :
+    (step h (.parcor t)).2 = (step ⟨[n, d], [some ⟨0, 1, none⟩]⟩ (.parcor 0)).2 ∧
+    (step h (.stable t)).2 = (step ⟨[n, d], [some ⟨0, 1, none⟩]⟩ (.stable 0)).2 := by
+  have hc' : (⟨[n, d], [some ⟨0, 1, none⟩]⟩ : Heap L).contents 0 = some (n, d) := rfl
+  constructor
+  · rw [step_parcor_obs h t n d hc, step_parcor_obs _ 0 n d hc']
+  · rw [step_stable_obs h t n d hc, step_stable_obs _ 0 n d hc']
+
+theorem parcorFixed_stepUp (ks : List L) (h1 : ∀ k ∈ ks, k * k ≠ 1) (hlast : ks.getLastD 1 ≠ 0) :
+    parcorFixed (stepUp ks) = (ks.reverse, false) := by
+  obtain ⟨t, ht⟩ := stepUp_head ks
+  have hs : stripZeros (stepUp ks) = 1 :: t := by
+    rw [stripZeros_of_last_ne _ (stepUp_last_ne ks hlast), ht]
+  rw [parcorFixed_eq_spec _ 1 t one_ne_zero hs]
+  exact stepdown_stepup_spec ks h1 hlast
+
+/-- **C11.7f** after ANY earlier operations (`h` is any well-formed heap): rebinding the numerator of a
+live filter with a constant denominator to the step-up of `ks` and asking `parcor` yields `ks`, last
+first — the answer is about the coefficients the filter has NOW. -/
+theorem hist_edit_then_parcor (h : Heap L) (hw : h.wf) (t : Nat) (f : Filt L) (hf : h.filt t = some f)
+    (d : L) (hd : stripZeros (h.cell f.den) = [d]) (ks : List L)
+    (h1 : ∀ k ∈ ks, k * k ≠ 1) (hlast : ks.getLastD 1 ≠ 0) :
+    (run h [.setPoly t .num (stepUp ks), .parcor t]).2 = [.done, .ks ks.reverse false] := by
+  have hc := contents_setPoly_num h hw t f hf (stepUp ks)
+  have h0 : (step h (.setPoly t .num (stepUp ks))).2 = .done := by simp only [step, hf]
+  simp only [run, h0]
+  rw [step_parcor_obs _ t _ _ hc]
+  simp only [parcorObs, hd, parcorFixed_stepUp ks h1 hlast]
+
+/-- **C11.7g** the history of the seeded change, any `r`: `f = levinson_durbin(r, order)`, then
+`f.numpoly = Poly(step-up of ks)`, then `parcor(f)`: yields `ks` (last first), not the reflection
+coefficients of `r` — whatever else the heap holds. -/
+theorem hist_lev_edit_parcor (h : Heap L) (hw : h.wf) (r : List L) (order : Nat) (a ks0 : List L) (e : L)
+    (hl : levinson r order = some (a, e, ks0)) (ks : List L)
+    (h1 : ∀ k ∈ ks, k * k ≠ 1) (hlast : ks.getLastD 1 ≠ 0) :
+    (run h [.lev r order, .setPoly h.filts.length .num (stepUp ks), .parcor h.filts.length]).2
+      = [.made h.filts.length, .done, .ks ks.reverse false] := by
+  have hs : step h (.lev r order)
+      = (⟨h.cells ++ [a, [1]], h.filts ++ [some ⟨h.cells.length, h.cells.length + 1, some e⟩]⟩,
+         .made h.filts.length) := by
+    simp only [step, hl]
+  have hw' := step_wf h (.lev r order) hw
+  rw [hs] at hw'
+  have hf' : (⟨h.cells ++ [a, [1]], h.filts ++ [some ⟨h.cells.length, h.cells.length + 1, some e⟩]⟩
+      : Heap L).filt h.filts.length = some ⟨h.cells.length, h.cells.length + 1, some e⟩ := by
+    simp [Heap.filt, List.getD_eq_getElem?_getD]
+  have hd : stripZeros ((⟨h.cells ++ [a, [1]],
+      h.filts ++ [some ⟨h.cells.length, h.cells.length + 1, some e⟩]⟩ : Heap L).cell (h.cells.length + 1))
+      = [(1 : L)] := by
+    simp [Heap.cell, List.getD_eq_getElem?_getD, stripZeros]
+  have := hist_edit_then_parcor _ hw' h.filts.length _ hf' 1 hd ks h1 hlast
+  rw [show run h [.lev r order, .setPoly h.filts.length .num (stepUp ks), .parcor h.filts.length]
+      = ((run (step h (.lev r order)).1 [.setPoly h.filts.length .num (stepUp ks),
+            .parcor h.filts.length]).1,
+         (step h (.lev r order)).2 :: (run (step h (.lev r order)).1
+            [.setPoly h.filts.length .num (stepUp ks), .parcor h.filts.length]).2) from rfl]
+  rw [hs]
+  simp only [this]
+
+/-- **C11.7h** the same with the caller's loop `for i, c in enumerate(new): f.numpoly[i] = c` (in-place
+edits of the Poly object, as in the seeded demo), `new` the step-up of `ks` and not shorter than the old
+numerator, numerator and denominator not the same object: `parcor(f)` yields `ks`, last first. -/
+theorem hist_items_then_parcor (h : Heap L) (hw : h.wf) (t : Nat) (f : Filt L) (hf : h.filt t = some f)
+    (hne : f.num ≠ f.den) (d : L) (hd : stripZeros (h.cell f.den) = [d]) (ks : List L)
+    (hlen : (h.cell f.num).length ≤ (stepUp ks).length)
+    (h1 : ∀ k ∈ ks, k * k ≠ 1) (hlast : ks.getLastD 1 ≠ 0) :
+    (run h (editItems t .num (stepUp ks) ++ [.parcor t])).2.getLast?
+      = some (.ks ks.reverse false) := by
+  rw [run_append]
+  simp only [run, List.getLast?_append, List.getLast?_singleton, Option.some_or]
+  rw [run_editItems h hw t .num f hf (stepUp ks) hlen]
+  have hn := (hw t f hf).1
+  have hdl := (hw t f hf).2
+  have hc : (⟨h.cells.set (f.cell .num) (stepUp ks), h.filts⟩ : Heap L).contents t
+      = some (stepUp ks, h.cell f.den) := by
+    have e1 : (⟨h.cells.set (f.cell .num) (stepUp ks), h.filts⟩ : Heap L).filt t = some f := hf
+    rw [Heap.contents, e1]
+    simp [Heap.cell, Filt.cell, List.getD_eq_getElem?_getD, hn, hne]
+  rw [step_parcor_obs _ t _ _ hc]
+  simp only [parcorObs, hd, parcorFixed_stepUp ks h1 hlast]
+
+/-- **C11.7i** aliasing by the caller: after `f_t.p = f_s.q` (one Poly object bound twice) and any number
+of in-place edits through any filters, both attributes still hold the same coefficients. -/
+theorem hist_alias (h : Heap L) (t s : Nat) (p q : Part) (f g : Filt L)
+    (hf : h.filt t = some f) (hg : h.filt s = some g) (edits : List (Op L))
+    (he : ∀ op ∈ edits, ∃ t' p' i v, op = Op.set t' p' i v) :
+    ∃ f' g', (run (step h (.share t p s q)).1 edits).1.filt t = some f' ∧
+      (run (step h (.share t p s q)).1 edits).1.filt s = some g' ∧ f'.cell p = g'.cell q := by
+  have hlt : t < h.filts.length := by
+    by_contra hn
+    simp [Heap.filt, List.getD_eq_getElem?_getD, List.getElem?_eq_none (Nat.le_of_not_lt hn)] at hf
+  have key : ∀ (es : List (Op L)) (h' : Heap L), (∀ op ∈ es, ∃ t' p' i v, op = Op.set t' p' i v) →
+      (run h' es).1.filts = h'.filts := by
+    intro es
+    induction es with
+    | nil => intro h' _; rfl
+    | cons op es ih =>
+      intro h' hall
+      obtain ⟨t', p', i, v, rfl⟩ := hall _ (List.mem_cons_self)
+      simp only [run]
+      rw [ih _ (fun o ho => hall o (List.mem_cons_of_mem _ ho))]
+      simp only [step]
+      cases h'.filt t' <;> rfl
+  have hs : (step h (.share t p s q)).1 = ⟨h.cells, h.filts.set t (some (f.bind p (g.cell q)))⟩ := by
+    simp only [step, hf, hg]
+  have hfil := key edits (step h (.share t p s q)).1 he
+  rw [hs] at hfil ⊢
+  simp only [Heap.filt, hfil]
+  refine ⟨f.bind p (g.cell q), if s = t then f.bind p (g.cell q) else g, ?_, ?_, ?_⟩
+  · simp [List.getD_eq_getElem?_getD, hlt]
+  · by_cases e : s = t
+    · subst e; simp [List.getD_eq_getElem?_getD, hlt]
+    · have e' : ¬ t = s := fun x => e x.symm
+      simp only [e, if_false]
+      simpa [List.getD_eq_getElem?_getD, List.getElem?_set, e', Heap.filt] using hg
+  · by_cases e : s = t
+    · subst e
+      have : f = g := by rw [hf] at hg; exact Option.some.inj hg
+      subst this
+      simp only [if_true]
+      cases p <;> cases q <;> simp [Filt.bind, Filt.cell]
+    · simp only [e, if_false]
+      cases p <;> simp [Filt.bind, Filt.cell]
+
+end Hist
+
+/-- **C11.7j** stability after any history: `parcor_stable(f)` answers `True` exactly when every pole
+of the CURRENT denominator lies strictly inside the unit circle (leading coefficient non-zero). -/
+theorem hist_stable_current_poles (h : Hist.Heap ℝ) (t : Nat) (n d t' : List ℝ) (g : ℝ) (hg : g ≠ 0)
+    (hc : h.contents t = some (n, d)) (hs : stripZeros d = g :: t') :
+    (Hist.step h (.stable t)).2 = .verdict true ↔
+      ∀ z : ℂ, evalC d.reverse z = 0 → Complex.normSq z < 1 := by
+  rw [← stableFixed_iff_poles_inside d t' g hg hs, Hist.step_stable_obs h t n d hc]
+  simp
+
 /-! ### non-vacuity -/
 example : parcorStableCoded ([2, -1] : List Rat) = false := by decide +kernel
 example : parcorStableSpec (fromPoles (3 : ℝ) [1/2, -3/4] [(0, 1/2), (3/5, 3/5)]) = true := by
@@ -331,6 +511,18 @@ example : parcorCoded (1 : Rat) (stepUp [1/2, -1/3, 1/5]) = ([1/5, -1/3, 1/2], f
 example : parcorSpec ([2, 1, 1/2, 1/5] : List Rat) = ([1/10, 20/99, 95/238], false) := by decide +kernel
 example : parcorCoded (1 : Rat) [2, 1, 1/2, 1/5] = ([1/5, 5/16, 5/7], false) := by decide +kernel
 example : parcorCoded (1 : Rat) [3, 3/2, 1/2] = ([1/2, 1], true) := by decide +kernel
+
+example : (Hist.run (Hist.Heap.empty : Hist.Heap Rat)
+    [.lev [3, 1, 1/2, -1/4] 3, .parcor 0, .setPoly 0 .num (stepUp [1/3, -1/2, 1/5]), .parcor 0]).2
+    = [.made 0, .ks [3/17, -1/16, -1/3] false, .done, .ks [1/5, -1/2, 1/3] false] := by decide +kernel
+example : (Hist.run (Hist.Heap.empty : Hist.Heap Rat)
+    ([.lev [5, 2, -1] 2] ++ Hist.editItems 0 .num (stepUp [-2/3, 1/4]) ++ [.parcor 0, .stable 0])).2.drop 4
+    = [.ks [1/4, -2/3] false, .verdict true] := by decide +kernel
+example : (Hist.run (Hist.Heap.empty : Hist.Heap Rat)
+    [.mk [1] [1, -1/2], .stable 0, .set 0 .den 1 (-1), .stable 0, .parcor 0, .mk [2] [1],
+     .share 1 .num 0 .den, .set 0 .den 1 (1/3), .parcor 1]).2
+    = [.made 0, .verdict true, .done, .verdict false, .valueError, .made 1, .done, .done,
+       .ks [1/3] false] := by decide +kernel
 
 end ALV.Props.C11
 
